@@ -2,6 +2,7 @@
   C01 — Nodes are removed only after taint, grace period and drain conditions are met.
   Property theorems only; helper lemmas are in EscProofs/Lemmas.
 -/
+import EscProofs.P.GenTaintTime
 import EscProofs.P.GenReap
 import EscProofs.Lemmas.Run
 import EscProofs.Lemmas.Classify
